@@ -86,6 +86,61 @@ type detCtx struct {
 	reason    error
 	callback  []func()
 	onPoll    func(n int)
+	gen       int             // generation of the context currently attached (gswap replaces it)
+	stale     []chan struct{} // Done channels of replaced generations: a replaced context is never done
+	openDone  bool            // c.open has been closed
+}
+
+// ctxHandle is the context of generation gen > 0: what the host attaches with
+// SetContext while the script is running.  Only the generation currently attached
+// is counted, faulted and cancelled; a replaced context never becomes done.
+type ctxHandle struct {
+	c   *detCtx
+	gen int
+}
+
+func (h *ctxHandle) Deadline() (time.Time, bool)       { return time.Time{}, false }
+func (h *ctxHandle) Value(key interface{}) interface{} { return nil }
+func (h *ctxHandle) Err() error                        { return h.c.errOf(h.gen) }
+func (h *ctxHandle) AfterFunc(f func()) func() bool    { return h.c.AfterFunc(f) }
+func (h *ctxHandle) Done() <-chan struct{} {
+	ch, cbs := h.c.poll(h.gen)
+	for _, f := range cbs {
+		f()
+	}
+	return ch
+}
+
+// swap detaches the current generation and returns the context of the next one.
+func (c *detCtx) swap() *ctxHandle {
+	c.mu.Lock()
+	defer c.mu.Unlock()
+	if c.cancelled {
+		return &ctxHandle{c, c.gen}
+	}
+	c.stale = append(c.stale, c.open)
+	c.open = make(chan struct{})
+	c.gen++
+	return &ctxHandle{c, c.gen}
+}
+
+// closeOpen makes the attached generation's Done channel (always the same channel,
+// as the context.Context contract demands) closed.  c.mu held.
+func (c *detCtx) closeOpen() <-chan struct{} {
+	if !c.openDone {
+		c.openDone = true
+		close(c.open)
+	}
+	return c.open
+}
+
+func (c *detCtx) errOf(gen int) error {
+	c.mu.Lock()
+	defer c.mu.Unlock()
+	if gen != c.gen {
+		return nil
+	}
+	return c.reason
 }
 
 type detErr struct{ msg string }
@@ -100,11 +155,7 @@ func newDetCtx(budget int, fault *progFault) *detCtx {
 
 func (c *detCtx) Deadline() (time.Time, bool)       { return time.Time{}, false }
 func (c *detCtx) Value(key interface{}) interface{} { return nil }
-func (c *detCtx) Err() error {
-	c.mu.Lock()
-	defer c.mu.Unlock()
-	return c.reason
-}
+func (c *detCtx) Err() error { return c.errOf(0) }
 
 // fire marks the context done for good; it returns the callbacks registered by
 // child contexts, which the caller must run AFTER releasing c.mu (they call Err()).
@@ -113,6 +164,7 @@ func (c *detCtx) fire(reason string) []func() {
 	if c.reason == nil {
 		c.reason = detErr{reason}
 	}
+	c.closeOpen()
 	cbs := c.callback
 	c.callback = nil
 	return cbs
@@ -131,24 +183,24 @@ func (c *detCtx) AfterFunc(f func()) func() bool {
 }
 
 func (c *detCtx) Done() <-chan struct{} {
-	ch, cbs := c.poll()
+	ch, cbs := c.poll(0)
 	for _, f := range cbs {
 		f()
 	}
 	return ch
 }
 
-func (c *detCtx) poll() (<-chan struct{}, []func()) {
+func (c *detCtx) poll(gen int) (<-chan struct{}, []func()) {
 	c.mu.Lock()
 	defer c.mu.Unlock()
+	if gen != c.gen {
+		return c.stale[gen], nil // a replaced context: not attached any more, never done (the watchdog aside)
+	}
 	// Only the dispatch poll of the VM main loop is a fault/cancel point and is
 	// counted; other callers (context.WithCancel in NewThread, channel
 	// operations) just observe the current cancellation state.
 	if pc, _, _, ok := runtime.Caller(2); !ok || !strings.HasSuffix(runtime.FuncForPC(pc).Name(), "mainLoopWithContext") {
-		if c.cancelled {
-			return c.closed, nil
-		}
-		return c.open, nil
+		return c.open, nil // closed once the context is done
 	}
 	c.polls++
 	if c.onPoll != nil {
@@ -156,7 +208,7 @@ func (c *detCtx) poll() (<-chan struct{}, []func()) {
 	}
 	if c.cancelled && (c.fault == nil || c.fault.Mode != "cancel" || c.polls < c.fault.K) {
 		c.after++ // cancelled by the host (gcancel) or the watchdog
-		return c.closed, nil
+		return c.closeOpen(), nil
 	}
 	if c.fault != nil {
 		switch c.fault.Mode {
@@ -175,14 +227,16 @@ func (c *detCtx) poll() (<-chan struct{}, []func()) {
 				}
 				c.fired = true
 				c.cancelled = true
-				return c.closed, c.fire("verif-cancel")
+				cbs := c.fire("verif-cancel")
+				return c.open, cbs
 			}
 		}
 	}
 	if c.budget > 0 && c.polls > c.budget {
 		c.fired = true
 		c.cancelled = true
-		return c.closed, c.fire("verif-budget")
+		cbs := c.fire("verif-budget")
+		return c.open, cbs
 	}
 	return c.open, nil
 }
@@ -307,6 +361,10 @@ func runProgram(p progIn) (res progOut) {
 		ctx.fired = true
 		ctx.cancelled = true
 		cbs := ctx.fire("verif-budget")
+		for i, ch := range ctx.stale { // whatever still listens to a replaced context must end too
+			close(ch)
+			ctx.stale[i] = ctx.closed
+		}
 		ctx.mu.Unlock()
 		for _, f := range cbs {
 			f()
@@ -379,6 +437,14 @@ func runProgram(p progIn) (res progOut) {
 		}
 		return 0
 	}))
+	L.SetGlobal("gswap", L.NewFunction(func(L *lua.LState) int {
+		// the host replaces the context attached to the running state (a tighter deadline, say):
+		// from now on only the new context can become done
+		if p.Opts == nil || !p.Opts.NoContext {
+			R.SetContext(ctx.swap())
+		}
+		return 0
+	}))
 	L.SetGlobal("gerr", L.NewFunction(func(L *lua.LState) int {
 		L.RaiseError("%s", L.CheckString(1)) // a host function failing the ordinary way
 		return 0
@@ -433,7 +499,13 @@ func runProgram(p progIn) (res progOut) {
 	}
 	if err != nil {
 		if ctx.timedOut || (ctx.fired && ctx.reason != nil && ctx.reason.Error() == "verif-budget") {
-			res.Outcome = []interface{}{"budget"}
+			// "cancelled": the planned/host cancellation had made the context done before the
+			// safety net ended the run; "never-done": the script was merely long-running
+			why := "never-done"
+			if ctx.reason != nil && ctx.reason.Error() == "verif-cancel" {
+				why = "cancelled"
+			}
+			res.Outcome = []interface{}{"budget", why}
 			return
 		}
 		if ae, ok := err.(*lua.ApiError); ok {
